@@ -199,6 +199,11 @@ func (e *Exec) havocLoop(st *State, h *ssa.BasicBlock, li *loopInfo) {
 		}
 		v := e.freshVal("loop:"+phi.Comment, phi.Type())
 		e.assumeWellFormedLoopVar(st, v, phi.Type())
+		if phi.Comment == "rangeindex" && isIntType(phi.Type()) {
+			// range loops start at -1 and step by one while below a length
+			st.assume(app("bvsge", v.T[0], bvLitI(-1, 64)))
+			st.assume(app("bvslt", v.T[0], bvLitI(1<<62, 64)))
+		}
 		fr.env[phi] = v
 		if phi.Comment != "" {
 			fr.vars[phi.Comment] = v
@@ -220,7 +225,13 @@ func (e *Exec) havocLoop(st *State, h *ssa.BasicBlock, li *loopInfo) {
 				stores = append(stores, x)
 			case *ssa.MapUpdate:
 				mt := x.Map.Type().Underlying().(*types.Map)
-				e.havocMapType(st, mt)
+				if definedOutside(x.Map, li) {
+					mv := e.val(st, x.Map)
+					mv.Typ = x.Map.Type()
+					e.havocAbstract(st, "map", mv)
+				} else {
+					e.havocMapType(st, mt)
+				}
 			case *ssa.Call:
 				if e.callMayWriteHeap(&x.Call) {
 					wholeHeap = true
@@ -497,16 +508,29 @@ func (e *Exec) constructorInvariants(st *State, r *ssa.Return) {
 	}
 }
 
-// checkFrame proves that every heap array not covered by the assigns clause
-// is unchanged at objects other than those freshly allocated here.
+// checkFrame proves that every heap write of the function (including the
+// frames of its callees) falls on a fresh object, on state guarded by a
+// monitor the function entered, or on a location its assigns clause lists.
 func (e *Exec) checkFrame(st *State, r *ssa.Return) {
 	fr := st.top()
-	for _, k := range sortedKeys(st.heap) {
-		if strings.HasPrefix(k, "C:") || strings.HasPrefix(k, "L:") || strings.HasPrefix(k, "E:") || strings.HasPrefix(k, "chan#cap") {
-			// local cells / element arrays of fresh slices are checked through their owners
-			if !strings.HasPrefix(k, "E:") {
-				continue
+	type cand struct{ ref string }
+	for _, w := range st.writes {
+		k := w.key
+		if k == "*" {
+			ok := "false"
+			for _, as := range e.fc.Assigns {
+				if as.Field == "**" {
+					ok = "true"
+				}
 			}
+			e.oblige(st, "frame", "assigns/*", e.fc.EffProps, "frame: an unbounded heap effect (unspecified callee) is announced by 'assigns *'", ok, r.Pos())
+			continue
+		}
+		if strings.HasPrefix(k, "C:") && e.isFresh(st, w.ref) || strings.HasPrefix(k, "chan#cap") {
+			continue
+		}
+		if e.isFresh(st, w.ref) {
+			continue
 		}
 		base := strings.SplitN(k, "#", 2)[0]
 		if st.counts["acquired"] > 0 && (strings.HasPrefix(k, "list#") || strings.HasPrefix(k, "M:") || strings.HasPrefix(k, "chan#") || strings.HasPrefix(k, "E:") || strings.HasPrefix(k, "ctx#")) {
@@ -515,19 +539,7 @@ func (e *Exec) checkFrame(st *State, r *ssa.Return) {
 		if e.guardedByAcquired(st, base) {
 			continue
 		}
-		srt, ok := e.decls[e.entryArrName(k)]
-		if !ok {
-			// the array was never read through its entry name: declare it now
-			continue
-		}
-		cur := st.heap[k]
-		entry := e.entryArrName(k)
-		if cur == entry {
-			continue
-		}
-		// allowed objects: fresh refs, assigns-listed objects, monitor-guarded objects we locked
 		var allowed []string
-		allowed = append(allowed, st.fresh...)
 		whole := false
 		for _, as := range e.fc.Assigns {
 			if as.Field == "**" {
@@ -541,21 +553,17 @@ func (e *Exec) checkFrame(st *State, r *ssa.Return) {
 				if !match {
 					continue
 				}
-				ctx := &evalCtx{st: st, scope: map[string]Val{}, fr: fr, entryScope: e.entryParams(), paramsFirst: true}
-				if ov, err := e.evalTop(ctx, as.Obj, nil); err == nil {
-					allowed = append(allowed, ov.T[0])
-					// the reference may itself have been read in the pre-state
-					ctxo := &evalCtx{st: st, scope: map[string]Val{}, fr: fr, entryScope: e.entryParams(), paramsFirst: true, inOld: true}
-					if ov2, err := e.evalTop(ctxo, as.Obj, nil); err == nil {
-						allowed = append(allowed, ov2.T[0])
+				for _, old := range []bool{false, true} {
+					ctx := &evalCtx{st: st, scope: map[string]Val{}, fr: fr, entryScope: e.entryParams(), paramsFirst: true, inOld: old}
+					if ov, err := e.evalTop(ctx, as.Obj, nil); err == nil {
+						allowed = append(allowed, ov.T[0])
+					} else if !old {
+						whole = true
 					}
-				} else {
-					whole = true
 				}
 				continue
 			}
 			if as.Obj != nil && strings.HasPrefix(base, "A:") {
-				// atomic field of the object: indexed by the sub-object reference
 				ctx := &evalCtx{st: st, scope: map[string]Val{}, fr: fr, entryScope: e.entryParams(), paramsFirst: true}
 				if ov, err := e.evalTop(ctx, as.Obj, nil); err == nil && ov.Typ != nil {
 					if f, _ := findField(ov.Typ, as.Field); f != nil && "A:"+namedKey(f.Type()) == base {
@@ -576,7 +584,7 @@ func (e *Exec) checkFrame(st *State, r *ssa.Return) {
 				whole = true
 				break
 			}
-			ctx := &evalCtx{st: st, scope: map[string]Val{}, fr: fr, entryScope: e.entryParams(), paramsFirst: true, inOld: false}
+			ctx := &evalCtx{st: st, scope: map[string]Val{}, fr: fr, entryScope: e.entryParams(), paramsFirst: true}
 			ov, err := e.evalTop(ctx, as.Obj, nil)
 			if err != nil {
 				e.contractError(e.fc, &Clause{Text: "assigns " + as.Text, Line: e.fc.Line}, err)
@@ -588,15 +596,21 @@ func (e *Exec) checkFrame(st *State, r *ssa.Return) {
 		if whole {
 			continue
 		}
-		// forall o not in allowed: cur[o] == entry[o]   (skolemised)
-		o := e.fresh("frame.o", SInt)
-		var ne []string
+		goal := "false"
+		var alts []string
 		for _, a := range allowed {
-			ne = append(ne, tNot(tEq(o, a)))
+			if a == w.ref {
+				goal = "true"
+			}
+			alts = append(alts, tEq(w.ref, a))
 		}
-		_ = srt
-		goal := tImp(tAnd(ne...), tEq(app("select", cur, o), app("select", entry, o)))
-		e.oblige(st, "frame", "assigns/"+k, e.fc.EffProps, "frame: "+k+" changes only where the assigns clause allows", goal, r.Pos())
+		if goal != "true" {
+			for _, f := range st.fresh {
+				alts = append(alts, tEq(w.ref, f))
+			}
+			goal = tOr(alts...)
+		}
+		e.oblige(st, "frame", "assigns/"+k, e.fc.EffProps, "frame: "+k+" is written only where the assigns clause allows", goal, r.Pos())
 	}
 }
 
